@@ -301,6 +301,16 @@ package protocol
 //@   macro
 //@   def (forall i :: 0 <= i && i < len(pages) ==> pageOK(pages[i]) && pages[i].offset == pages[0].offset + int64(i) * 65536) && (forall i :: 0 <= i && i < len(pages) - 1 ==> pages[i].length == 65536) && (forall i, j :: 0 <= i && i < j && j < len(pages) ==> pages[i].buffer != pages[j].buffer)
 
+// Page references keep data alive until Close: a reference takes one count on every page it lists, whatever its length
+// (an empty key or value still lists the page it sits on, and Close gives that count back)
+//@ func (*pageBuffer).refTo
+//@   option noframe
+//@   option only post callsite callsite-reach
+//@   modifies heap
+//@   callsite (contiguousPages).ref requires same($0, ref.pages)
+//@   callsite (contiguousPages).ref modifies ref.$held
+//@   callsite (contiguousPages).ref ensures ref.$held
+//@   ensures ref.$held
 //@ func (*page).ReadAt
 //@   requires pageOK(p) && p.offset <= off && off <= p.offset + 65536
 //@   requires b.base != p.buffer
